@@ -271,12 +271,14 @@ def ref_allows_K(buf):
 
 class ReportHooks(QHooks):
     precise = frozenset(['L:k', 'L:j'])
-    tracked = frozenset()
+    tracked = frozenset(['RO'])
 
     def __init__(self):
         self.sites = {}
         self.puts = 0
         self.samples = []
+        self.strings = 0
+        self.over = 0
 
     def site(self, inst, x, ok, detail, E):
         prev = self.sites.get(inst)
@@ -288,9 +290,36 @@ class ReportHooks(QHooks):
         return next(iter(v)) if v else d
 
     def materialize(self, E, path):
-        if path.startswith('report::P:s['):
+        if path.startswith('RO['):
+            k = int(path[3:-1])
+            n = self.g(E, '$len')
+            if n is not None and k >= n:
+                self.site('reads-only-the-len-bytes-of-the-output', None, False, 'byte %d of a %d-byte output is read' % (k, n), E)
+                return fs(0)
             return CHARS
         return TOP
+
+    def cstring(self, E, x, ptr):
+        """substdio_puts() of a string inside the output: it is read up to its first NUL, which must lie inside the len bytes"""
+        n = self.g(E, '$len')
+        k0 = int(ptr[1][3:-1])
+        outs = []
+        sets = {}
+        for k in range(k0, n):
+            v = E.get('RO[%d]' % k)
+            if v is None or v is TOP:
+                v = CHARS
+            if 0 in v:
+                outs.append(Outcome(ret=TOP, sets=dict(sets, **{'RO[%d]' % k: fs(0)})))
+            nz = frozenset(v) - {0}
+            if not nz:
+                return outs
+            sets['RO[%d]' % k] = nz
+        self.over += 1
+        self.site('reads-only-the-len-bytes-of-the-output', x, False,
+                  'the string written from byte %d of a %d-byte output has no NUL inside the output (bytes %s): substdio_puts() reads on behind it' %
+                  (k0, n, [sorted(E.get('RO[%d]' % k) or [])[:3] if E.get('RO[%d]' % k) is not TOP else '*' for k in range(n)]), E)
+        return outs or 'noreturn'
 
     def first_output(self, E, x, letter):
         if self.g(E, '$wrote', 0):
@@ -311,8 +340,8 @@ class ReportHooks(QHooks):
             # every concretisation of the bytes left undetermined on this path must justify K
             sets = []
             for k in range(n):
-                v = E.get('report::P:s[%d]' % k)
-                if v is TOP:
+                v = E.get('RO[%d]' % k)
+                if v is TOP or v is None:
                     v = CHARS
                 reps = sorted({b for b in ALPHA.values() if b in v}) or [sorted(v)[0]]
                 sets.append(reps)
@@ -333,12 +362,58 @@ class ReportHooks(QHooks):
         lit = x.args[1].string
         if lit:
             self.first_output(E, x, lit[0])
+            return [Outcome(ret=TOP)]
+        p = args[1]
+        p = next(iter(p)) if p is not TOP and len(p) == 1 else None
+        if isinstance(p, tuple) and p[0] == '&' and p[1].startswith('RO['):
+            self.strings += 1
+            return self.cstring(E, x, p)
         return [Outcome(ret=TOP)]
+
+    def prim_byte_chr(self, E, x, args):
+        """byte_chr(s,n,c): index of the first c in s[0..n), or n"""
+        p, cnt, c = args[0], args[1], args[2]
+        p = next(iter(p)) if p is not TOP and len(p) == 1 else None
+        cnt = next(iter(cnt)) if cnt is not TOP and len(cnt) == 1 else None
+        c = next(iter(c)) if c is not TOP and len(c) == 1 else None
+        if not (isinstance(p, tuple) and p[0] == '&' and p[1].startswith('RO[')) or not isinstance(cnt, int) or not isinstance(c, int):
+            return [Outcome(ret=TOP)]
+        k0 = int(p[1][3:-1])
+        n = self.g(E, '$len')
+        if cnt < 0 or k0 + cnt > n:
+            self.site('reads-only-the-len-bytes-of-the-output', x, False, 'byte_chr() searches %d bytes from byte %d of a %d-byte output' % (cnt, k0, n), E)
+            return 'noreturn'
+        outs = []
+        sets = {}
+        for t in range(cnt):
+            v = E.get('RO[%d]' % (k0 + t))
+            if v is None or v is TOP:
+                v = CHARS
+            if c in v:
+                outs.append(Outcome(ret=fs(t), sets=dict(sets, **{'RO[%d]' % (k0 + t): fs(c)})))
+            rest = frozenset(v) - {c}
+            if not rest:
+                return outs
+            sets['RO[%d]' % (k0 + t)] = rest
+        outs.append(Outcome(ret=fs(cnt), sets=dict(sets)))
+        return outs
 
     def prim_substdio_put(self, E, x, args):
         lit = x.args[1].string
         if lit:
             self.first_output(E, x, lit[0])
+            return [Outcome(ret=TOP)]
+        p = args[1]
+        p = next(iter(p)) if p is not TOP and len(p) == 1 else None
+        if isinstance(p, tuple) and p[0] == '&' and p[1].startswith('RO['):
+            self.strings += 1
+            k0 = int(p[1][3:-1])
+            n = self.g(E, '$len')
+            cnt = args[2]
+            hi = None if cnt is TOP or not cnt or not all(isinstance(c, int) for c in cnt) else max(cnt)
+            if hi is None or k0 + hi > n or min(cnt) < 0:
+                self.site('reads-only-the-len-bytes-of-the-output', x, False,
+                          '%s bytes are written from byte %d of a %d-byte output' % ('an undetermined number of' if hi is None else sorted(cnt), k0, n), E)
         return [Outcome(ret=TOP)]
 
 
@@ -585,6 +660,29 @@ class RelayHooks(QHooks):
 
 
 
+def report_explore(db, rep):
+    """qmail-rspawn report() over every exit status class and every output of 0..5 bytes (all byte values)"""
+    pr = db.program('qmail-rspawn')
+    rp = pr.fn('report', 'qmail-rspawn.c')
+    H5 = ReportHooks()
+    st5 = 0
+    wstats = [('crash', [9, 11, 139]), ('exit0', [0]), ('exit111', [111 << 8]), ('exitother', [1 << 8, 100 << 8, 255 << 8])]
+    for kind, ws in wstats:
+        for w in ws:
+            for n in ([0, 1, 2, 3, 4, 5] if kind == 'exit0' else [0, 2]):
+                e5 = Engine(db, pr, H5, max_states=400000)
+                e5.run(rp, {'report::P:wstat': fs(w), 'report::P:len': fs(n), 'report::P:s': fs(('&', 'RO[0]')), '$len': fs(n), '$kind': fs(kind)})
+                st5 += e5.states
+                rep.count_states(e5.states, e5.transitions)
+    if H5.puts < 5:
+        raise AnalysisBroken('report(): output sites not explored')
+    if 'reads-only-the-len-bytes-of-the-output' not in H5.sites:
+        if not H5.strings:
+            raise AnalysisBroken('report(): no string inside the output is written')
+        H5.sites['reads-only-the-len-bytes-of-the-output'] = (True, 'qmail-rspawn.c:report', '%d strings inside the output written, each ends inside it' % H5.strings, [])
+    return H5, st5
+
+
 def run(ctx):
     db, rep = ctx.db, ctx.report
     prog = db.program('qmail-remote')
@@ -679,20 +777,9 @@ def run(ctx):
     pr = db.program('qmail-rspawn')
     rp = pr.fn('report', 'qmail-rspawn.c')
     r5 = rep.rule('C09.5-spawner-folding', 'R-TABLE', 'qmail-rspawn report(): crash->Z, 111->Z, other exit->D, no output->Z; K only if the first K/Z/D report is K and the output does not start with s/h (all byte values, output lengths 0..5)')
-    H5 = ReportHooks()
-    st5 = 0
-    wstats = [('crash', [9, 11, 139]), ('exit0', [0]), ('exit111', [111 << 8]), ('exitother', [1 << 8, 100 << 8, 255 << 8])]
-    for kind, ws in wstats:
-        for w in ws:
-            for n in ([0, 1, 2, 3, 4, 5] if kind == 'exit0' else [0, 2]):
-                e5 = Engine(db, pr, H5, max_states=400000)
-                e5.run(rp, {'report::P:wstat': fs(w), 'report::P:len': fs(n), '$len': fs(n), '$kind': fs(kind)})
-                st5 += e5.states
-                rep.count_states(e5.states, e5.transitions)
+    H5, st5 = report_explore(db, rep)
     for inst, (ok, where, detail, path) in sorted(H5.sites.items()):
         r5.check(ok, inst, where, detail, path)
-    if H5.puts < 5:
-        raise AnalysisBroken('report(): output sites not explored')
     r5.expect_min(5)
     r5.note(abstract_states=st5, output_lengths=[0, 1, 2, 3, 4, 5])
     rep.sample({'rspawn K paths (byte sets per position)': H5.samples})
